@@ -124,6 +124,82 @@ def _returns(stmts: List[ast.stmt]) -> List[ast.Return]:
     return out
 
 
+def _falls_through(stmts: List[ast.stmt]) -> bool:
+    """control can reach the end of the block"""
+    if not stmts:
+        return True
+    last = stmts[-1]
+    if isinstance(last, (ast.Return, ast.Raise, ast.Continue, ast.Break)):
+        return False
+    if isinstance(last, ast.If):
+        return _falls_through(last.body) or _falls_through(last.orelse)
+    if isinstance(last, ast.With):
+        return _falls_through(last.body)
+    return True
+
+
+def _has_return(stmts: List[ast.stmt]) -> bool:
+    for st in stmts:
+        for n in ast.walk(st):
+            if isinstance(n, ast.Return):
+                return True
+    return False
+
+
+class _NoFit(Exception):
+    pass
+
+
+def _elim_returns(stmts: List[ast.stmt], result) -> List[ast.stmt]:
+    """the block with every `return v` replaced by ``result(v, at)`` (a list of statements) and the statements a return would
+    have skipped moved into the else arms; returns inside loops / try are not handled (raises _NoFit).  The value of a helper
+    with several returns then arrives in one variable on every path, and the block has no return left."""
+    out: List[ast.stmt] = []
+    for i, st in enumerate(stmts):
+        rest = stmts[i + 1:]
+        if isinstance(st, ast.Return):
+            out.extend(result(st.value, st))
+            return out                                          # what follows is unreachable
+        if not _has_return([st]):
+            out.append(st)
+            continue
+        if isinstance(st, ast.If):
+            b_ft, o_ft = _falls_through(st.body), _falls_through(st.orelse)
+            b_r, o_r = _has_return(st.body), _has_return(st.orelse)
+            if (b_ft and b_r) or (o_ft and o_r):
+                # a branch that returns on some of its paths only: the rest of the block belongs to both branches
+                st.body = _elim_returns(st.body + _dc(rest), result) if b_ft else _elim_returns(st.body, result)
+                st.orelse = _elim_returns(st.orelse + _dc(rest), result) if o_ft else _elim_returns(st.orelse, result)
+                out.append(st)
+                return out
+            if b_r and not b_ft and not o_r:
+                st.body = _elim_returns(st.body, result)
+                st.orelse = _elim_returns(st.orelse + rest, result) if o_ft else st.orelse
+                out.append(st)
+                if o_ft:
+                    return out
+                continue
+            if o_r and not o_ft and not b_r:
+                st.orelse = _elim_returns(st.orelse, result)
+                st.body = _elim_returns(st.body + rest, result) if b_ft else st.body
+                out.append(st)
+                if b_ft:
+                    return out
+                continue
+            st.body = _elim_returns(st.body, result)
+            st.orelse = _elim_returns(st.orelse, result)
+            out.append(st)
+            if not b_ft and not o_ft:
+                return out
+            continue
+        if isinstance(st, ast.With) and not _falls_through(st.body):
+            st.body = _elim_returns(st.body, result)
+            out.append(st)
+            return out
+        raise _NoFit()
+    return out
+
+
 class _Subst(ast.NodeTransformer):
     def __init__(self, mapping: Dict[str, ast.expr], rename: Dict[str, str]):
         self.mapping, self.rename = mapping, rename
@@ -202,7 +278,7 @@ class _Inliner:
         self.n += 1
         return f"{h.name.strip('_')}{self.n}"
 
-    def body_of(self, h: Func, call: ast.Call, stack: Set[str], depth: int):
+    def body_of(self, h: Func, call: ast.Call, stack: Set[str], depth: int, mode: str = "single"):
         """(prefix, statements, return expression or None) of the helper instantiated for ``call``; None if it does not fit"""
         if h.qual in stack or depth > MAX_DEPTH:
             return None
@@ -218,8 +294,35 @@ class _Inliner:
             if len(rets) == 1 and last is rets[0]:
                 body = body[:-1]
                 ret_expr = last.value
+            elif mode == "splice":
+                # `return self._h(..)`: the helper's returns are the caller's
+                if any(isinstance(n, (ast.FunctionDef, ast.AsyncFunctionDef, ast.Lambda)) and _has_return([n])
+                       for st_ in body for n in ast.walk(st_)):
+                    return None
+                if _falls_through(body):
+                    body = body + [ast.copy_location(ast.Return(value=ast.Constant(value=None)), call)]
+            elif mode in ("value", "stmt"):
+                if any(isinstance(n, (ast.FunctionDef, ast.AsyncFunctionDef, ast.Lambda)) and _has_return([n])
+                       for st_ in body for n in ast.walk(st_)):
+                    return None
+                res_name = f"{h.name.strip('_')}_result{self.n}"
+
+                def result(v, at, _rn=res_name):
+                    if mode == "stmt":
+                        return [] if v is None or isinstance(v, (ast.Constant, ast.Name)) else [ast.copy_location(ast.Expr(value=v), at)]
+                    val = v if v is not None else ast.copy_location(ast.Constant(value=None), at)
+                    return [ast.copy_location(ast.Assign(targets=[ast.Name(id=_rn, ctx=ast.Store())], value=val), at)]
+                try:
+                    ft = _falls_through(body)
+                    body = _elim_returns(body + ([ast.copy_location(ast.Return(value=None), call)] if ft else []), result)
+                except _NoFit:
+                    return None
+                if mode == "value":
+                    ret_expr = ast.copy_location(ast.Name(id=res_name, ctx=ast.Load()), call)
             else:
                 return None
+        if not rets and mode == "splice" and _falls_through(body):
+            body = body + [ast.copy_location(ast.Return(value=ast.Constant(value=None)), call)]
         sub = _Subst(mapping, rename)
         body = [sub.visit(st) for st in body]
         if ret_expr is not None:
@@ -265,8 +368,18 @@ class _Inliner:
                 call, kind = st.value, "value"
             if call is not None:
                 h = _helper_for(self.P, self.cls, owner, call)
-                if h is not None:
-                    r = self.body_of(h, call, stack, depth)
+                if h is not None and isinstance(st, ast.Return):
+                    r = self.body_of(h, call, stack, depth, mode="splice")
+                    if r is not None and r[2] is None:
+                        out.extend(r[0] + r[1])
+                        continue
+                    r = None if r is None or r[2] is None else r
+                    if r is not None:
+                        st.value = r[2]
+                        out.extend(r[0] + r[1] + [st])
+                        continue
+                elif h is not None:
+                    r = self.body_of(h, call, stack, depth, mode="stmt" if kind == "stmt" else "value")
                     if r is not None:
                         prefix, body, ret_expr = r
                         if kind == "stmt" and ret_expr is None:
@@ -281,22 +394,64 @@ class _Inliner:
                             continue
             # helpers that are a single `return <expr>` are inlined as expressions wherever they are called
             st = _ExprInline(self, owner, stack, depth).visit(st)
-            # <helper>(...).<method>(...) as a statement / assigned / returned: the helper runs first, its result takes its place
-            outer = st.value if isinstance(st, (ast.Expr, ast.Assign, ast.Return, ast.AugAssign, ast.AnnAssign)) else None
-            if isinstance(outer, ast.Call) and isinstance(outer.func, ast.Attribute) and isinstance(outer.func.value, ast.Call):
-                inner = outer.func.value
+            # a helper call that is the first thing the statement evaluates (`<helper>(..).m(..)`, `x = <helper>(..)[i]`,
+            # `if <helper>(..) is None:`): the helper runs first, its result takes its place
+            slot = None
+            if isinstance(st, (ast.Expr, ast.Assign, ast.Return, ast.AnnAssign)) and getattr(st, "value", None) is not None:
+                slot = _first_evaluated_call(st, "value")
+            elif isinstance(st, ast.If):
+                slot = _first_evaluated_call(st, "test")
+            if slot is not None:
+                holder, fld, idx, inner = slot
                 h = _helper_for(self.P, self.cls, owner, inner)
                 if h is not None:
-                    r = self.body_of(h, inner, stack, depth)
+                    r = self.body_of(h, inner, stack, depth, mode="value")
                     if r is not None and r[2] is not None:
                         prefix, body, ret_expr = r
-                        tmp = f"{h.name.strip('_')}_result{self.n}"
-                        bind = ast.copy_location(ast.Assign(targets=[ast.Name(id=tmp, ctx=ast.Store())], value=ret_expr), st)
-                        outer.func.value = ast.copy_location(ast.Name(id=tmp, ctx=ast.Load()), inner)
-                        out.extend(prefix + body + [bind, st])
+                        if isinstance(ret_expr, ast.Name) or (isinstance(ret_expr, ast.Attribute) and _simple_chain(ret_expr)
+                                                              and not body and not prefix):
+                            repl, bind = ret_expr, []
+                        else:
+                            tmp = f"{h.name.strip('_')}_result{self.n}x"
+                            bind = [ast.copy_location(ast.Assign(targets=[ast.Name(id=tmp, ctx=ast.Store())], value=ret_expr), st)]
+                            repl = ast.copy_location(ast.Name(id=tmp, ctx=ast.Load()), inner)
+                        if idx is None:
+                            setattr(holder, fld, repl)
+                        else:
+                            getattr(holder, fld)[idx] = repl
+                        # the statement may still hold further helper calls
+                        out.extend(prefix + body + bind + self.block([st], owner, stack, depth + 1))
                         continue
             out.append(st)
         return out
+
+
+def _first_evaluated_call(st, field):
+    """(holder, field, index, call) of the call expression that the statement evaluates before anything else, if that is a
+    call: the descent follows receivers, subscripted values, left operands, first operands"""
+    holder, fld, idx = st, field, None
+    e = getattr(st, field)
+    found = None
+    while True:
+        if isinstance(e, ast.Call):
+            found = (holder, fld, idx, e)
+            if isinstance(e.func, ast.Attribute):
+                holder, fld, idx, e = e.func, "value", None, e.func.value
+                continue
+            break
+        if isinstance(e, (ast.Attribute, ast.Subscript, ast.Starred)):
+            holder, fld, idx, e = e, "value", None, e.value
+        elif isinstance(e, ast.UnaryOp):
+            holder, fld, idx, e = e, "operand", None, e.operand
+        elif isinstance(e, ast.BoolOp):
+            holder, fld, idx, e = e, "values", 0, e.values[0]
+        elif isinstance(e, ast.Compare):
+            holder, fld, idx, e = e, "left", None, e.left
+        elif isinstance(e, ast.BinOp):
+            holder, fld, idx, e = e, "left", None, e.left
+        else:
+            break
+    return found
 
 
 class _ExprInline(ast.NodeTransformer):
